@@ -78,6 +78,11 @@ impl BlockingRegistry {
         self.blocked_keys.contains(key)
     }
     
+    /// The first waiting client for a key, left in place
+    pub fn first_waiter(&self, key: &[u8]) -> Option<BlockedClient> {
+        self.blocked_on_key.get(key).and_then(|clients| clients.front().cloned())
+    }
+    
     /// Pop the first waiting client for a key
     pub fn pop_first_waiter(&mut self, key: &[u8]) -> Option<BlockedClient> {
         if let Some(clients) = self.blocked_on_key.get_mut(key) {
@@ -204,24 +209,31 @@ impl BlockingManager {
             return;
         }
         
-        // Only wake up one client at a time per key to prevent deadlock
-        // When an item is pushed, only the first waiting client should be notified
-        let client = {
-            let mut registry = self.registries[db].write().unwrap();
-            match registry.pop_first_waiter(key) {
-                Some(c) => c,
-                None => return, // No clients waiting on this key
-            }
+        // Only record that the key received data. The waiters stay registered: the main loop
+        // serves them in blocking order for as long as the list has elements (see
+        // `Server::wake_client`), so a push of several elements serves several waiters and a
+        // waiter that cannot be served does not lose its place or an element.
+        let first = {
+            let registry = self.registries[db].read().unwrap();
+            registry.first_waiter(key)
         };
-        
-        // Send single wake-up request
-        // Additional items pushed will wake additional clients one by one
-        self.wake_queue.push(WakeupRequest {
-            conn_id: client.conn_id,
-            db,
-            key: key.to_vec(),
-            op_type: client.op_type,
-        });
+        if let Some(client) = first {
+            self.wake_queue.push(WakeupRequest {
+                conn_id: client.conn_id,
+                db,
+                key: key.to_vec(),
+                op_type: client.op_type,
+            });
+        }
+    }
+    
+    /// The client that blocked first on a key, without removing it
+    pub fn first_waiter(&self, db: DatabaseIndex, key: &[u8]) -> Option<BlockedClient> {
+        if db >= self.registries.len() {
+            return None;
+        }
+        let registry = self.registries[db].read().unwrap();
+        registry.first_waiter(key)
     }
     
     /// Process wake-up queue (called from main server loop)
